@@ -24,7 +24,21 @@ def closures_of(F, path):
 
 
 def with_closures(F, fn):
-    return [fn] + closures_of(F, fn["path"])
+    """the body and the closures that belong to it.  For a body with helpers inlined (`mir.inline_calls`) also the closures the
+    inlined helpers create - those that were not themselves inlined at their call (a closure handed to a std adaptor such as
+    `for_each` / `map` stays a body of its own)."""
+    out = [fn] + closures_of(F, fn["path"])
+    inl = fn.get("inlined")
+    if inl:
+        seen = {b["path"] for b in out}
+        already = set(inl)
+        for cp in inl:
+            owner = cp
+            for c in closures_of(F, owner):
+                if c["path"] not in seen and c["path"] not in already:
+                    out.append(c)
+                    seen.add(c["path"])
+    return out
 
 
 def callee_names(t):
